@@ -9,7 +9,7 @@ TWINS = ['\\x a \\y a \\z', '{ a \\y a }a \\y a ', '\\a{x} b \\a{x} c', '\\a{x}\
          '\\begin{itemize}\\item[\\a{x}] \\a{x}\\end{itemize}', '\\p{\\q{\\r}}\\p{\\q{\\r}}', '{\\a\\a}', '$\\a{x}$ {\\a{x}} \\a{x}',
          '\\begin{e}[\\o{1}]{r} t \\c{ \\d{2} } $m \\f{3}$ {g \\h{4}}\\end{e} z', '\\begin{itemize}\\item i \\j{5} \\item k\\end{itemize}',
          '\\textbf{Hello} \\begin{v}q\\end{v} $x$', 'x \\a x \\b x', '\\begin{e}\\begin{e}\\a{x}\\end{e}\\a{x}\\end{e}',
-         '\\a{x}{y}{x} t', '\\begin{e}{c}{l}{c}u\\end{e}', '\\sec*{t} \\begin{al*}x\\end{al*}', '\\w{p}{q}{r}{s}', '\\begin{itemize}\\item$x$y \\item\\a{x}b\\end{itemize}', '\\foo[opt] x \\bar[k]', '$\\a + \\b = \\a$ \\[\\a\\a\\]']
+         '\\a{x}{y}{x} t', '\\begin{e}{c}{l}{c}u\\end{e}', '\\sec*{t} \\begin{al*}x\\end{al*}', '\\w{p}{q}{r}{s}', '\\begin{itemize}\\item$x$y \\item\\a{x}b\\end{itemize}', '\\foo[opt] x \\bar[k]', '$\\a + \\b = \\a$ \\[\\a\\a\\]', '\\begin{e}a %c\n\\end{e} {b %c\n}']
 MATS = (('X',), (1,), (5, 'Y'), ('p q', 2, 3), ('x', ' ', 'y'), ('\n',))
 
 
